@@ -205,7 +205,7 @@ package store
 // changed the database; a LOAD raises the full-snapshot requirement in the same apply.
 //@ func (*Store) fsmApply
 //@   requires [built] s != nil && l != nil && s.fsmTarget != nil && s.appliedTarget != nil && s.cmdProc != nil && s.db != nil
-//@   assigns *, chanClosed, optHas, optVal, handleOpen, handleDSN
+//@   assigns *, chanClosed, optHas, optVal, handleOpen, handleDSN, abVal
 //@   ghost var nProcess int = 0
 //@   ghost var signalled bool = false
 //@   ghost var mut bool = false
@@ -389,6 +389,12 @@ package store
 //@   assert @db.Execute: [execute-own-request] cmd.Type == proto.Command_COMMAND_TYPE_EXECUTE && arg0 == er.Request && arg1 == er.Timings
 //@   assert @db.Query: [query-own-request] cmd.Type == proto.Command_COMMAND_TYPE_QUERY && arg0 == qr.Request && arg1 == qr.Timings
 //@   assert @db.Request: [request-own-request] cmd.Type == proto.Command_COMMAND_TYPE_EXECUTE_QUERY && arg0 == eqr.Request && arg1 == eqr.Timings
+//@   assert @?time.Now: [apply-reads-only-entry-and-db] false
+//@   assert @?time.Since: [apply-reads-only-entry-and-db] false
+//@   assert @?rand.*: [apply-reads-only-entry-and-db] false
+//@   assert @?random.*: [apply-reads-only-entry-and-db] false
+//@   assert @?os.Getenv: [apply-reads-only-entry-and-db] false
+//@   assert @?os.Hostname: [apply-reads-only-entry-and-db] false
 //@   ensures [load-mutated-iff-swapped] (result0 != nil && result0.Type == proto.Command_COMMAND_TYPE_LOAD) ==> (result1 == (swapped && swapErr == nil))
 //@   ensures [swap-failure-not-a-change] (swapped && swapErr != nil) ==> !result1
 //@   ensures [query-noop-never-a-change] (result0 != nil && (result0.Type == proto.Command_COMMAND_TYPE_QUERY || result0.Type == proto.Command_COMMAND_TYPE_NOOP)) ==> !result1
